@@ -23,7 +23,7 @@ META = {
         "ptera.probe.Probe._enter/_exit",
     ],
     "bounds": {"quick": {"history_length": "<= 4 operations over 7 kinds (incl. probing the enclosing function `make`)", "placements": 5},
-               "thorough": {"history_length": "<= 6", "placements": 5}},
+               "thorough": {"history_length": "<= 5", "placements": 5}},
     "out_of_scope": ["modules other than the generated one", "functions redefined at run time (jurigged-style hot patching)",
                      "two probed functions in one history"],
     "assumptions": ["transform and codefind lookups executed natively (concrete data)",
@@ -248,7 +248,7 @@ def build(case):
 
 def cases(tier, seed):
     th = tier == "thorough"
-    n = 6 if th else 4
+    n = 5 if th else 4
     cs = []
     for pl in PLACEMENTS:
         for first in (1, 2, 5, 6, 7):
